@@ -22,24 +22,40 @@ pub enum Op {
 }
 const OPS: [Op; 6] = [Op::TryNew, Op::TryFrom, Op::DisplayFromStr, Op::SerDeJson, Op::SerDeRon, Op::SerDeMsgPack];
 
+/// entry point through which the starting value is obtained ("every obtainable value")
+#[derive(Clone, Copy, Debug, PartialEq, Eq)]
+pub enum Entry {
+    TryNew,
+    TryFromOwned,
+    TryFromStr,
+    FromStr,
+    FromRefStr,
+    DeJson,
+    DeMsgPack,
+}
+const ENTRIES: [Entry; 7] = [Entry::TryNew, Entry::TryFromOwned, Entry::TryFromStr, Entry::FromStr, Entry::FromRefStr, Entry::DeJson, Entry::DeMsgPack];
+
 #[derive(Clone, Debug)]
 pub struct Chain<I> {
     pub start: I,
+    pub entry: Entry,
     pub ops: Vec<Op>,
 }
 impl<I: InnerTy> Case for Chain<I> {
     fn key(&self) -> Vec<u8> {
         let mut k = self.start.key();
         k.push(0xFD);
+        k.push(self.entry as u8);
         k.extend(self.ops.iter().map(|o| *o as u8));
         k
     }
     fn to_json(&self) -> serde_json::Value {
-        json!({"start": self.start.to_json(), "ops": self.ops.iter().map(|o| format!("{o:?}")).collect::<Vec<_>>()})
+        json!({"start": self.start.to_json(), "entry": format!("{:?}", self.entry), "ops": self.ops.iter().map(|o| format!("{o:?}")).collect::<Vec<_>>()})
     }
     fn from_json(v: &serde_json::Value) -> Option<Self> {
         let ops = v.get("ops")?.as_array()?.iter().filter_map(|o| OPS.iter().copied().find(|x| format!("{x:?}") == o.as_str().unwrap_or(""))).collect();
-        Some(Chain { start: I::from_json(v.get("start")?)?, ops })
+        let entry = v.get("entry").and_then(|e| e.as_str()).and_then(|e| ENTRIES.iter().copied().find(|x| format!("{x:?}") == e)).unwrap_or(Entry::TryNew);
+        Some(Chain { start: I::from_json(v.get("start")?)?, entry, ops })
     }
     fn weight(&self) -> u128 {
         self.start.weight().saturating_add((self.ops.len() as u128) << 100)
@@ -66,7 +82,52 @@ pub fn check<I: Inputs>(vt: &'static Vt<I>, ctx: &Ctx) -> DeclReport {
         .collect();
     let sig = |o: Op, w: &str| format!("C11|{}|{o:?}|{w}|sans={}|vals={}", I::NAME, san_names(m), val_names(m));
     let eval = |c: &Chain<I>| -> Outcome {
-        let Ok(Ok(v0)) = no_panic(|| (vt.ctor)(c.start.clone())) else { return Outcome::ok(false, "start-not-obtainable") };
+        // obtain the starting value through the chosen entry point
+        let obtained: Option<I> = no_panic(|| match c.entry {
+            Entry::TryNew => (vt.ctor)(c.start.clone()).ok(),
+            Entry::TryFromOwned => match (vt.try_from, vt.from) {
+                (Some(f), _) => f(c.start.clone()).ok(),
+                (_, Some(f)) => Some(f(c.start.clone())),
+                _ => None,
+            },
+            Entry::TryFromStr if I::KIND == Kind::Str => vt.try_from_str.and_then(|f| f(c.start.as_str_()).ok()),
+            Entry::FromRefStr if I::KIND == Kind::Str => vt.from_str_ref.map(|f| f(c.start.as_str_())),
+            Entry::FromStr if I::KIND == Kind::Str => vt.from_str_s.and_then(|f| f(c.start.as_str_()).ok()),
+            Entry::FromStr => match (vt.from_str, c.start.display_()) {
+                (Some(f), Some(text)) => match f(&text) {
+                    FsOut::Ok(v) => Some(v),
+                    _ => None,
+                },
+                _ => None,
+            },
+            Entry::DeJson | Entry::DeMsgPack => {
+                let f = if c.entry == Entry::DeJson { Fmt::Json } else { Fmt::MsgPack };
+                match (vt.de, enc(f, &c.start)) {
+                    (Some(de), Ok(doc)) => de(f, Pos::Top, &doc).ok().and_then(|v| v.into_iter().next()),
+                    _ => None,
+                }
+            }
+            _ => None,
+        })
+        .ok()
+        .flatten();
+        let Some(v0) = obtained else { return Outcome::ok(false, "start-not-obtainable") };
+        // the property itself: the constructor maps an obtained value to itself
+        {
+            let gate = !has_custom_san || matches!(crate::model::construct(m, v0.clone()), Ok(ref x) if x.same(&v0));
+            if gate {
+                match no_panic(|| (vt.ctor)(v0.clone())) {
+                    Ok(Ok(x)) if x.same(&v0) => {}
+                    Ok(Ok(x)) => {
+                        return Outcome::fail(true, "obtained-value-not-canonical", format!("C11|{}|obtained-via-{:?}|value-changed-by-constructor|sans={}|vals={}", I::NAME, c.entry, san_names(m), val_names(m)), format!("Ok({})", v0.to_json()), format!("Ok({})", x.to_json()))
+                    }
+                    Ok(Err(e)) => {
+                        return Outcome::fail(true, "obtained-value-not-canonical", format!("C11|{}|obtained-via-{:?}|value-rejected-by-constructor|sans={}|vals={}", I::NAME, c.entry, san_names(m), val_names(m)), format!("Ok({})", v0.to_json()), format!("Err({})", e.show()))
+                    }
+                    Err(_) => {}
+                }
+            }
+        }
         // chains containing a custom sanitizer: individually idempotent functions do not make the chain
         // idempotent (truncate-then-uppercase, truncate-after-trim); the property speaks only where the
         // reference model maps the value to itself. Built-in-only chains are checked unconditionally.
@@ -145,20 +206,40 @@ pub fn check<I: Inputs>(vt: &'static Vt<I>, ctx: &Ctx) -> DeclReport {
     // systematic: every start value with each single op, plus a rotating selection of longer chains
     let starts = I::systematic(m, ctx.tier);
     let mut sys = Vec::with_capacity(starts.len() * 3);
+    let entries: Vec<Entry> = ENTRIES
+        .iter()
+        .copied()
+        .filter(|e| match e {
+            Entry::TryNew => true,
+            Entry::TryFromOwned => vt.try_from.is_some() || vt.from.is_some(),
+            Entry::TryFromStr => vt.try_from_str.is_some(),
+            Entry::FromRefStr => vt.from_str_ref.is_some(),
+            Entry::FromStr => vt.from_str.is_some() || vt.from_str_s.is_some(),
+            Entry::DeJson | Entry::DeMsgPack => vt.de.is_some(),
+        })
+        .collect();
     for (i, s) in starts.iter().enumerate() {
-        sys.push(Chain { start: s.clone(), ops: vec![Op::TryNew] });
+        sys.push(Chain { start: s.clone(), entry: Entry::TryNew, ops: vec![Op::TryNew] });
+        // every other entry point on a rotating basis (all of them when there are few starts)
+        for (ei, e) in entries.iter().enumerate().skip(1) {
+            if starts.len() < 5000 || (i + ei) % (entries.len() - 1).max(1) == 0 {
+                sys.push(Chain { start: s.clone(), entry: *e, ops: vec![] });
+            }
+        }
         if !avail.is_empty() {
             let a = avail[i % avail.len()];
             let b = avail[(i / avail.len()) % avail.len()];
             let c = avail[(i / 7) % avail.len()];
-            sys.push(Chain { start: s.clone(), ops: vec![a, b] });
+            sys.push(Chain { start: s.clone(), entry: entries[i % entries.len()], ops: vec![a, b] });
             if i % 5 == 0 {
-                sys.push(Chain { start: s.clone(), ops: vec![b, a, c, a] });
+                sys.push(Chain { start: s.clone(), entry: entries[(i / 5) % entries.len()], ops: vec![b, a, c, a] });
             }
         }
     }
     let av = avail.clone();
-    let strat = (I::strategy(m), proptest::collection::vec(proptest::sample::select(av), 0..=4)).prop_map(|(start, ops)| Chain { start, ops }).boxed();
+    let strat = (I::strategy(m), proptest::sample::select(entries.clone()), proptest::collection::vec(proptest::sample::select(av), 0..=4))
+        .prop_map(|(start, entry, ops)| Chain { start, entry, ops })
+        .boxed();
     drive(ctx, &info, &mut rep, sys, Some(strat), ctx.n_random(1500, 100_000), &eval);
     rep
 }
